@@ -255,7 +255,18 @@ impl<'a, 'tcx> Cx<'a, 'tcx> {
                     }
                 }
             }
-            Const::Ty(..) => {}
+            Const::Ty(cty, ct) => {
+                // a constant of a pattern (`matches!(s, "" | "." | "..")`): a valtree, not an evaluated allocation
+                if is_str_like(cty) {
+                    if let Some(v) = ct.try_to_value() {
+                        if let Some(bytes) = v.try_to_raw_bytes(self.tcx) {
+                            if let Ok(s) = std::str::from_utf8(bytes) {
+                                let _ = write!(o, ",\"str\":{}", esc(s));
+                            }
+                        }
+                    }
+                }
+            }
         }
         o.push('}');
         o
